@@ -1,2 +1,98 @@
+/-
+  C03 — conversion from native numbers (posit clause): the field extraction performed by
+  value<fbits>::operator=(long long / unsigned long long) denotes the source integer exactly; the rounding to the
+  posit is then `convert_` (obligation of C01).
+-/
 import UVerif.Model.PositConv
-theorem C03_placeholder : True := trivial
+import UVerif.Spec.Ieee
+import UVerifProofs.Lemmas.Pow2
+import UVerifProofs.Lemmas.Ieee
+
+open UVerif UVerif.Posit
+
+/-- The (sign, scale, fraction) triple built from a non-zero integer of magnitude below 2^64 whose most significant bit
+    position does not exceed the fraction width denotes exactly that integer — for every fraction width `fb ≤ 64`
+    (all the widths the posit constructors instantiate: 7, 15, 31, 63, 64, 16, 32). -/
+theorem C03_valueOfInt_exact (fb : Nat) (x : Int) (hx : x ≠ 0) (hfb : fb ≤ 64)
+    (hfit : x.natAbs.log2 ≤ fb) (h64 : x.natAbs < 2 ^ 64) :
+    (valueOfInt fb x).toRat = (x : ℚ) := by
+  unfold valueOfInt
+  simp only [hx, if_false]
+  have hm0 : x.natAbs ≠ 0 := by omega
+  set mag := x.natAbs with hmag
+  have hlo : 2 ^ mag.log2 ≤ mag := Nat.log2_self_le hm0
+  have hhi : mag < 2 ^ (mag.log2 + 1) := Nat.lt_log2_self
+  have hsc : mag.log2 ≤ 63 := by
+    by_contra hc
+    have := Nat.pow_le_pow_right (show 0 < 2 by decide) (show 64 ≤ mag.log2 by omega)
+    omega
+  set sc := mag.log2 with hscdef
+  -- the 64-bit word after shifting the hidden bit out
+  have hf64 : (if sc = 0 then 0 else (mag <<< (64 - sc)) % 2 ^ 64) = (mag - 2 ^ sc) * 2 ^ (64 - sc) := by
+    split
+    · rename_i h0; rw [h0] at hlo hhi ⊢; simp at hlo hhi ⊢; omega
+    · rw [Nat.shiftLeft_eq]
+      have e1 : mag * 2 ^ (64 - sc) = 2 ^ 64 + (mag - 2 ^ sc) * 2 ^ (64 - sc) := by
+        have : 2 ^ 64 = 2 ^ sc * 2 ^ (64 - sc) := by rw [← Nat.pow_add]; congr 1; omega
+        rw [this, Nat.sub_mul]
+        have := Nat.mul_le_mul_right (2 ^ (64 - sc)) hlo
+        omega
+      have e2 : (mag - 2 ^ sc) * 2 ^ (64 - sc) < 2 ^ 64 := by
+        have : 2 ^ 64 = 2 ^ sc * 2 ^ (64 - sc) := by rw [← Nat.pow_add]; congr 1; omega
+        rw [this]
+        apply Nat.mul_lt_mul_of_pos_right _ (Nat.two_pow_pos _)
+        rw [Nat.pow_succ] at hhi; omega
+      rw [e1, Nat.add_mod_left, Nat.mod_eq_of_lt e2]
+  rw [hf64]
+  simp only [hfb, if_true, Nat.shiftRight_eq_div_pow]
+  have hfr : (mag - 2 ^ sc) * 2 ^ (64 - sc) / 2 ^ (64 - fb) = (mag - 2 ^ sc) * 2 ^ (fb - sc) := by
+    have : 2 ^ (64 - sc) = 2 ^ (fb - sc) * 2 ^ (64 - fb) := by rw [← Nat.pow_add]; congr 1; omega
+    rw [this, ← Nat.mul_assoc, Nat.mul_div_cancel _ (Nat.two_pow_pos _)]
+  rw [hfr]
+  unfold Val.toRat
+  simp only [Bool.false_eq_true, if_false]
+  rw [pow2_natCast]
+  have hxq : (x : ℚ) = if x < 0 then -(mag : ℚ) else (mag : ℚ) := by
+    split
+    · have : x = -(mag : Int) := by omega
+      rw [this]; push_cast; ring
+    · have : x = (mag : Int) := by omega
+      rw [this]; push_cast; ring
+  have hval : (1 + ((((mag - 2 ^ sc) * 2 ^ (fb - sc) : Nat)) : ℚ) / ((2 ^ fb : Nat) : ℚ)) * ((2 ^ sc : Nat) : ℚ) = (mag : ℚ) := by
+    have hfbs : (2 ^ fb : Nat) = 2 ^ (fb - sc) * 2 ^ sc := by rw [← Nat.pow_add]; congr 1; omega
+    rw [hfbs]
+    push_cast [Nat.cast_sub hlo]
+    have p1 : (0 : ℚ) < 2 ^ (fb - sc) := by positivity
+    have p2 : (0 : ℚ) < 2 ^ sc := by positivity
+    field_simp
+    ring
+  rw [hxq]
+  by_cases hneg : x < 0
+  · simp only [hneg, decide_true, if_true, hval]
+  · simp only [hneg, decide_false, Bool.false_eq_true, if_false, hval]
+
+/-- non-vacuity: −(2^40+5) through value<63> -/
+example : (-(2 ^ 40 + 5) : Int) ≠ 0 ∧ 63 ≤ 64 ∧ ((-(2 ^ 40 + 5) : Int).natAbs).log2 ≤ 63 := by decide
+
+/-- zero maps to the zero value, for every width -/
+theorem C03_valueOfInt_zero (fb : Nat) : (valueOfInt fb 0).zero = true := by
+  unfold valueOfInt; simp
+
+/-- infinities and NaNs of the source become NaR; zero becomes zero — for every posit configuration -/
+theorem C03_specials (n es mb : Nat) :
+    fromSrc n es mb .inf = 2 ^ (n - 1) ∧ fromSrc n es mb .nan = 2 ^ (n - 1) ∧ fromSrc n es mb .zero = 0 := by
+  simp [fromSrc]
+
+/-- value denoted by an extracted (sign, scale, fraction) triple with `mb` fraction bits -/
+abbrev srcVal := srcVal'
+
+/-- The frexp-style field extraction of a finite non-zero IEEE source (normal OR subnormal, any exponent and
+    mantissa width) denotes the source value exactly. -/
+theorem C03_classifyIeee_exact (eb mb bits : Nat) (s : Bool) (sc : Int) (fr : Nat)
+    (h : classifyIeee eb mb bits = .fin s sc fr) :
+    ieeeVal eb mb bits = some (srcVal mb s sc fr) := C03_classifyIeee_exact' eb mb bits s sc fr h
+
+/-- non-vacuity: the binary64 subnormal 0x0000000000000003 and the normal 0x4009000000000000 (3.125) are both
+    classified as finite sources -/
+example : classifyIeee 11 52 0x3 = .fin false (-1073) (2 ^ 51) ∧
+          classifyIeee 11 52 0x4009000000000000 = .fin false 1 0x9000000000000 := by decide
